@@ -148,7 +148,7 @@ func (g *GaussianSampler) read(pol Poly, f func(a, b, c uint64) uint64) {
 			}
 
 			for j, qi := range moduli {
-				coeffs[j][i] = f(coeffs[j][i], coeff.Mod(normInt, Qi[j]).Uint64(), qi)
+				coeffs[j][i] = f(coeffs[j][i], g.form(coeff.Mod(normInt, Qi[j]).Uint64(), j), qi)
 			}
 		}
 
@@ -174,14 +174,20 @@ func (g *GaussianSampler) read(pol Poly, f func(a, b, c uint64) uint64) {
 				if c >= qi {
 					c %= qi
 				}
-				coeffs[j][i] = f(coeffs[j][i], (c*sign)|CRed(qi-c, qi)*(sign^1), qi)
+				coeffs[j][i] = f(coeffs[j][i], g.form((c*sign)|CRed(qi-c, qi)*(sign^1), j), qi)
 			}
 		}
 	}
+}
 
+// form returns the residue x modulo the j-th modulus in the domain the sampler outputs: the sample is converted
+// before it is combined with the target (ReadAndAdd), whose previous content must not be converted again.
+func (g *GaussianSampler) form(x uint64, j int) uint64 {
 	if g.montgomery {
-		g.baseRing.MForm(pol, pol)
+		s := g.baseRing.SubRings[j]
+		return MForm(x, s.Modulus, s.BRedConstant)
 	}
+	return x
 }
 
 // NormFloat64 returns a normally distributed float64 in
